@@ -445,5 +445,331 @@ theorem sim_aux : ∀ (ls : List (Line τ α)) (s s' : RState τ α) (curR : Lis
 
 end sim
 
+/-! #### one group: `keepComplete` of its resolved faces = `savedCorner` of its tokens -/
+
+section group
+variable {τ α : Type} [DecidableEq τ] (pc : τ → Except Err Corner)
+
+/-- what `keepComplete` does to one corner -/
+def maskR (kt kn : Bool) (c : RCorner α) : RCorner α := ⟨c.p, if kt then c.t else none, if kn then c.n else none⟩
+
+theorem flatMap_corners_aux : ∀ fs : List (RFace α), (fs.flatMap fun (a, b, c) => [a, b, c]) = cornersOf fs
+  | [] => rfl
+  | (a, b, c) :: fs => by simp [cornersOf, flatMap_corners_aux fs]
+
+theorem cornersOf_map_aux (f : RCorner α → RCorner α) : ∀ fs : List (RFace α),
+    cornersOf (fs.map fun x => (f x.1, f x.2.1, f x.2.2)) = (cornersOf fs).map f
+  | [] => rfl
+  | (a, b, c) :: fs => by simp [cornersOf, cornersOf_map_aux f fs]
+
+theorem cornersOf_keepComplete_aux (fs : List (RFace α)) :
+    cornersOf (keepComplete fs) =
+      (cornersOf fs).map (maskR ((cornersOf fs).all fun c => c.t.isSome) ((cornersOf fs).all fun c => c.n.isSome)) := by
+  unfold keepComplete
+  simp only [flatMap_corners_aux]
+  exact cornersOf_map_aux (maskR _ _) fs
+
+theorem resolve_attr_aux {pv pn : List (V3 α)} {pt : List (V2 α)} {c : Corner} {r : RCorner α}
+    (h : resolveCorner pv pn pt c = some r) : r.t.isSome = (slot c.vt).isSome ∧ r.n.isSome = (slot c.vn).isSome := by
+  unfold resolveCorner at h
+  by_cases hv0 : c.v = 0
+  · simp [hv0] at h
+  · simp only [hv0, ↓reduceIte] at h
+    cases hp : pv[c.v - 1]? with
+    | none => simp [hp] at h
+    | some p =>
+      simp only [hp] at h
+      cases e1 : slot c.vt <;> cases e2 : slot c.vn <;> simp only [e1, e2] at h ⊢
+      · cases h; exact ⟨rfl, rfl⟩
+      · simp only [Option.map_eq_some_iff] at h
+        obtain ⟨n, _, rfl⟩ := h; exact ⟨rfl, rfl⟩
+      · simp only [Option.map_eq_some_iff] at h
+        obtain ⟨t, _, rfl⟩ := h; exact ⟨rfl, rfl⟩
+      · rename_i i j
+        cases ht : pt[i]? with
+        | none => simp [ht] at h
+        | some t =>
+          cases hn : pn[j]? with
+          | none => simp [ht, hn] at h
+          | some n => simp only [ht, hn, Option.some.injEq] at h; subst h; exact ⟨rfl, rfl⟩
+
+theorem resolve_maskC_aux {pv pn : List (V3 α)} {pt : List (V2 α)} {c : Corner} {r : RCorner α}
+    (h : resolveCorner pv pn pt c = some r) (kt kn : Bool) :
+    resolveCorner pv pn pt (maskC c kt kn) = some (maskR kt kn r) := by
+  have sn : slot (none : Option Nat) = none := rfl
+  unfold resolveCorner at h ⊢
+  by_cases hv0 : c.v = 0
+  · simp [hv0] at h
+  · have hv0' : (maskC c kt kn).v = c.v := rfl
+    simp only [hv0', hv0, ↓reduceIte] at h ⊢
+    cases hp : pv[c.v - 1]? with
+    | none => simp [hp] at h
+    | some p =>
+      simp only [hp] at h ⊢
+      cases e1 : slot c.vt <;> cases e2 : slot c.vn <;> simp only [e1, e2] at h
+      · cases h
+        cases kt <;> cases kn <;> simp [maskC, maskR, sn, e1, e2]
+      · rename_i j
+        simp only [Option.map_eq_some_iff] at h
+        obtain ⟨n, hn, rfl⟩ := h
+        cases kt <;> cases kn <;> simp [maskC, maskR, sn, e1, e2, hn]
+      · rename_i i
+        simp only [Option.map_eq_some_iff] at h
+        obtain ⟨t, ht, rfl⟩ := h
+        cases kt <;> cases kn <;> simp [maskC, maskR, sn, e1, e2, ht]
+      · rename_i i j
+        cases ht : pt[i]? with
+        | none => simp [ht] at h
+        | some t =>
+          cases hn : pn[j]? with
+          | none => simp [ht, hn] at h
+          | some n =>
+            simp only [ht, hn, Option.some.injEq] at h; subst h
+            cases kt <;> cases kn <;> simp [maskC, maskR, sn, e1, e2, ht, hn]
+
+theorem forall_rel_aux {β γ : Type} (f : β → Option γ) (P : β → Prop) (Q : γ → Prop)
+    (hPQ : ∀ t x, f t = some x → (P t ↔ Q x)) : ∀ (l : List β) (r : List γ), l.map f = r.map some →
+    ((∀ t ∈ l, P t) ↔ (∀ x ∈ r, Q x))
+  | [], [], _ => by simp
+  | [], _ :: _, h => by simp at h
+  | _ :: _, [], h => by simp at h
+  | a :: l, x :: r, h => by
+    simp only [List.map_cons, List.cons.injEq] at h
+    simp only [List.mem_cons, forall_eq_or_imp, hPQ a x h.1, forall_rel_aux f P Q hPQ l r h.2]
+
+theorem map_rel_aux {β γ δ : Type} (f : β → Option γ) (k : β → Option δ) (m : γ → δ) : ∀ (l : List β) (r : List γ),
+    l.map f = r.map some → (∀ t x, t ∈ l → f t = some x → k t = some (m x)) → l.map k = (r.map m).map some
+  | [], [], _, _ => rfl
+  | [], _ :: _, h, _ => by simp at h
+  | _ :: _, [], h, _ => by simp at h
+  | a :: l, x :: r, h, hk => by
+    simp only [List.map_cons, List.cons.injEq] at h
+    simp only [List.map_cons, hk a x (by simp) h.1,
+      map_rel_aux f k m l r h.2 (fun t y ht hy => hk t y (List.mem_cons_of_mem _ ht) hy)]
+
+/-- does the reader keep an attribute table?  iff every corner of the group's faces carries the slot -/
+theorem kept_iff_aux {β : Type} (sl : τ → Option Nat) (pool : List β) (g : Group τ α) (tbl : List β)
+    (hvl : g.verts.length = g.toks.length) (htbl : tbl.map some = (g.toks.filterMap sl).map (pool[·]?))
+    (hne : g.toks ≠ []) :
+    (keepIfComplete g.verts.length tbl).isSome = true ↔ ∀ t ∈ g.toks, (sl t).isSome := by
+  have hl : tbl.length = (g.toks.filterMap sl).length := by simpa using congrArg List.length htbl
+  have hpos : 0 < g.toks.length := List.length_pos_iff.2 hne
+  unfold keepIfComplete
+  constructor
+  · intro h
+    split at h
+    · rename_i hc
+      exact filterMap_length_aux _ _ (by omega)
+    · cases h
+  · intro hall
+    have h1 := congrArg List.length (filterMap_bind_aux sl (fun i => pool[i]?) g.toks hall)
+    rw [List.length_map, List.length_map] at h1
+    have hlen : tbl.length = g.verts.length := by omega
+    have hne' : tbl ≠ [] := by
+      intro e; rw [e] at hlen; simp at hlen; omega
+    simp [hne', hlen]
+
+theorem group_saved_aux {pv pn : List (V3 α)} {pt : List (V2 α)} {g : Group τ α} (hi : GInv pc pv pn pt g)
+    {fs : List (RFace α)} (hres : g.ftoks.map (resFace pc pv pn pt) = fs.map some) :
+    (cornersOf (keepComplete fs)).map some = (flatC g.ftoks).map (savedCorner pc pv pn pt g) := by
+  have hcs := corners_of_faces_aux pc pv pn pt g.ftoks fs hres
+  by_cases hemp : g.ftoks = []
+  · rw [hemp] at hres ⊢
+    cases fs with
+    | nil => rfl
+    | cons x r => simp at hres
+  · -- the group has a face, hence a token
+    have hne : g.toks ≠ [] := by
+      intro e
+      cases hf : g.ftoks with
+      | nil => exact hemp hf
+      | cons f r =>
+        obtain ⟨a, b, c⟩ := f
+        have : a ∈ flatC g.ftoks := by rw [hf]; simp [flatC]
+        obtain ⟨p, hp⟩ := ftoks_in_toks_aux pc hi this
+        rw [e] at hp; simp at hp
+    have hvl : g.verts.length = g.toks.length := by simpa using congrArg List.length hi.hv
+    -- tokens of the table = corners of the faces
+    have htoks : ∀ (P : τ → Prop), (∀ t ∈ g.toks, P t) ↔ (∀ t ∈ flatC g.ftoks, P t) := by
+      intro P
+      constructor
+      · intro h t ht
+        obtain ⟨p, hp⟩ := ftoks_in_toks_aux pc hi ht
+        exact h t (List.mem_of_getElem? hp)
+      · intro h t ht
+        obtain ⟨f, hf, hh⟩ := hi.hm t ht
+        obtain ⟨a, b, c⟩ := f
+        have hsub : ∀ u, u = a ∨ u = b ∨ u = c → u ∈ flatC g.ftoks := by
+          intro u hu
+          obtain ⟨l1, l2, hl⟩ := List.append_of_mem hf
+          rw [hl, flatC_append_aux]
+          simp only [flatC, List.mem_append, List.mem_cons]
+          right; rcases hu with rfl | rfl | rfl <;> simp
+        exact h t (hsub t hh)
+    have hkt : keptT g = (cornersOf fs).all fun c => c.t.isSome := by
+      rw [Bool.eq_iff_iff, List.all_eq_true]
+      unfold keptT
+      rw [kept_iff_aux (tIdx pc) pt g g.uvs hvl hi.ht hne, htoks]
+      refine forall_rel_aux (rcOf pc pv pn pt) _ _ ?_ _ _ hcs
+      intro t x hx
+      unfold rcOf at hx
+      unfold tIdx
+      cases hc : pc t with
+      | error e => simp [hc] at hx
+      | ok c => simp only [hc] at hx ⊢; rw [(resolve_attr_aux hx).1]
+    have hkn : keptN g = (cornersOf fs).all fun c => c.n.isSome := by
+      rw [Bool.eq_iff_iff, List.all_eq_true]
+      unfold keptN
+      rw [kept_iff_aux (nIdx pc) pn g g.normals hvl hi.hn hne, htoks]
+      refine forall_rel_aux (rcOf pc pv pn pt) _ _ ?_ _ _ hcs
+      intro t x hx
+      unfold rcOf at hx
+      unfold nIdx
+      cases hc : pc t with
+      | error e => simp [hc] at hx
+      | ok c => simp only [hc] at hx ⊢; rw [(resolve_attr_aux hx).2]
+    rw [cornersOf_keepComplete_aux, ← hkt, ← hkn]
+    refine (map_rel_aux (rcOf pc pv pn pt) _ _ _ _ hcs ?_).symm ▸ rfl
+    intro t x _ hx
+    unfold rcOf at hx
+    unfold savedCorner
+    cases hc : pc t with
+    | error e => simp [hc] at hx
+    | ok c => simp only [hc] at hx ⊢; exact resolve_maskC_aux hx _ _
+
+end group
+
+/-! #### the literal `Resaves` -/
+
+section final
+variable {τ α : Type} [DecidableEq τ] (pc : τ → Except Err Corner)
+
+theorem map_some_inj_aux {β : Type} : ∀ (a b : List β), a.map some = b.map some → a = b
+  | [], [], _ => rfl
+  | [], _ :: _, h => by simp at h
+  | _ :: _, [], h => by simp at h
+  | x :: a, y :: b, h => by
+    simp only [List.map_cons, List.cons.injEq, Option.some.injEq] at h
+    rw [h.1, map_some_inj_aux a b h.2]
+
+theorem cornersOf_flatMap_aux {β : Type} (f : β → List (RFace α)) : ∀ l : List β,
+    cornersOf (l.flatMap f) = l.flatMap (fun x => cornersOf (f x))
+  | [] => rfl
+  | a :: l => by simp [List.flatMap_cons, cornersOf_append_aux, cornersOf_flatMap_aux f l]
+
+theorem flatMap_congr_aux {β γ : Type} (f g : β → List γ) : ∀ l : List β, (∀ x ∈ l, f x = g x) → l.flatMap f = l.flatMap g
+  | [], _ => rfl
+  | a :: l, h => by
+    simp only [List.flatMap_cons, h a (by simp), flatMap_congr_aux f g l (fun x hx => h x (by simp [hx]))]
+
+/-- a text whose face lines all come after its data lines: the pools at the time of a face are the final pools -/
+theorem rg_saved_aux {τ' : Type} (pc' : τ' → Except Err Corner) (pre body : List (Line τ' α)) (hpre : faceToks pre = [])
+    (hb : NoPool body) :
+    (resolveGroups pc' [] [] [] [] (pre ++ body)).flatten =
+      (faceToks (pre ++ body)).map
+        (resFace pc' (poolV (pre ++ body)) (poolN (pre ++ body)) (poolT (pre ++ body))) := by
+  obtain ⟨a1, a2, a3⟩ := pool_of_append_aux pre body
+  rw [rg_prefix_aux pc' body pre [] [] [] [] hpre, rg_nopool_aux pc' _ _ _ body hb, faceToks_append_aux, hpre,
+    a1, a2, a3, hb.1, hb.2.1, hb.2.2]
+  simp
+
+/-- **The re-save clause, literally** (`Resaves`, the Bool the oracle `c05.holds.resave` evaluates): for every
+    accepted input, saving what was read succeeds and the saved text has as many faces as the input, every
+    corner of it resolves against the pools at the time of its face, and its faces are — in order — the faces
+    of the input resolved at the time of THEIR face, stretch by stretch between `g` lines, with texture
+    coordinates / normals kept exactly where the whole stretch has them (`keepComplete`). -/
+theorem obj_resave_literal [DecidableEq α] {ls : List (Line τ α)} {gs : List (Group τ α)} {libs : List String}
+    (h : readObj pc ls = .ok (gs, libs)) (matFile : String) :
+    ∃ out, writeObj matFile (gs.map toMesh) = .ok out ∧ Resaves pc pcId ls out = true := by
+  obtain ⟨out, hw, hca, hall⟩ := obj_resave_corners pc h matFile
+  obtain ⟨out2, hw2, hfc⟩ := obj_resave_faces pc h matFile
+  have hout : out2 = out := by rw [hw] at hw2; cases hw2; rfl
+  subst hout
+  refine ⟨out2, hw, ?_⟩
+  obtain ⟨hok, _⟩ := readObj_ranges_sum pc h
+  -- the saved text: data lines, then lines that feed no pool
+  have hwg := writeGroups_eq2_aux (decide ((gs.map toMesh).length > 1)) (gs.map toMesh) 0 0 0 (by
+    intro p hp
+    obtain ⟨g, hg, rfl⟩ := List.mem_map.1 hp
+    refine ⟨by simp [toMesh, flatTris_length_aux], ?_⟩
+    rcases (hok g hg).2 with h0 | h0
+    · left; simp [toMesh, h0]
+    · right
+      have : 3 * g.tris.length / 3 = g.tris.length := by omega
+      simp only [toMesh, flatTris_length_aux, this, ← h0]
+      simp [matSum, List.map_map, Function.comp_def])
+  simp only [writeObj, hwg, Except.ok.injEq] at hw
+  have hpre : faceToks (headerLines (α := α) matFile ++ dataLines (gs.map toMesh)) = [] := by
+    have hh : faceToks (headerLines (α := α) matFile) = [] := by unfold headerLines; split <;> rfl
+    simp [faceToks_append_aux, hh, faceToks_nopool_aux]
+  have hsaved := rg_saved_aux pcId _ _ hpre (noPool_groupLines_aux (decide ((gs.map toMesh).length > 1)) (gs.map toMesh) 0 0 0)
+  rw [hw] at hsaved
+  obtain ⟨fs', hfs'⟩ := faces_of_corners_aux pcId (poolV out2) (poolN out2) (poolT out2) (faceToks out2) hall
+  have hcs' : cornerAttrs pcId out2 = (cornersOf fs').map some := corners_of_faces_aux pcId _ _ _ _ _ hfs'
+  rw [hfs'] at hsaved
+  -- the input: the reader fold simulated by `resolveGroups`
+  unfold readObj at h
+  split at h
+  · cases h
+  · rename_i s e
+    simp only [finish, Except.ok.injEq, Prod.mk.injEq] at h
+    obtain ⟨hgs, _⟩ := h
+    have h0 : AllG pc ({} : RState τ α) := ⟨(by intro g hg; cases hg), GInv_empty_aux pc _ _ _ _⟩
+    obtain ⟨nd, segs, hd, hr, hres, hF⟩ := sim_aux pc ls {} s [] e h0 (by intro t ht; cases ht) rfl
+    obtain ⟨⟨hAd, hAc⟩, a, b, c⟩ := steps_allG_aux pc ls h0 e
+    simp only [List.nil_append, List.map_nil] at a b c hd hr
+    have hseg : (segs.map keepComplete).flatten = fs' := by
+      apply cornersOf_inj_aux
+      apply map_some_inj_aux
+      rw [← hcs', hca, hF keepComplete rfl, cornersOf_flatMap_aux, List.map_flatMap, ← hgs, hd, ← a, ← b, ← c]
+      simp only [List.flatMap_append, List.flatMap_cons, List.flatMap_nil, List.append_nil]
+      congr 1
+      · apply flatMap_congr_aux
+        intro g hg
+        exact group_saved_aux pc (hAd g (hd ▸ hg)) (hres g (List.mem_append_left _ hg))
+      · exact group_saved_aux pc hAc (hres s.cur (List.mem_append_right _ (List.mem_singleton_self _)))
+    unfold Resaves
+    rw [hr, mapM_allSome_aux, hsaved, allSome_map_some_aux]
+    simp [hfc, hseg]
+
+/-- the simulation, for a whole accepted input: `resolveGroups` of the input is, stretch by stretch, fully
+    resolved; the reader's groups are its non-empty stretches (stated through `keepComplete`, which maps the
+    empty stretch to nothing); every face of every group resolves against the final pools -/
+theorem readObj_resolves_at_face {ls : List (Line τ α)} {gs : List (Group τ α)} {libs : List String}
+    (h : readObj pc ls = .ok (gs, libs)) :
+    ∃ segs : List (List (RFace α)), resolveGroups pc [] [] [] [] ls = segs.map (·.map some) ∧
+      (segs.map keepComplete).flatten =
+        gs.flatMap (fun g => keepComplete (g.ftoks.filterMap (resFace pc (poolV ls) (poolN ls) (poolT ls)))) ∧
+      ∀ g ∈ gs, ∀ f ∈ g.ftoks, (resFace pc (poolV ls) (poolN ls) (poolT ls) f).isSome := by
+  unfold readObj at h
+  split at h
+  · cases h
+  · rename_i s e
+    simp only [finish, Except.ok.injEq, Prod.mk.injEq] at h
+    obtain ⟨hgs, _⟩ := h
+    have h0 : AllG pc ({} : RState τ α) := ⟨(by intro g hg; cases hg), GInv_empty_aux pc _ _ _ _⟩
+    obtain ⟨nd, segs, hd, hr, hres, hF⟩ := sim_aux pc ls {} s [] e h0 (by intro t ht; cases ht) rfl
+    obtain ⟨_, a, b, c⟩ := steps_allG_aux pc ls h0 e
+    simp only [List.nil_append, List.map_nil] at a b c hd hr
+    refine ⟨segs, hr, ?_, ?_⟩
+    · rw [hF keepComplete rfl, ← hgs, hd, ← a, ← b, ← c]
+      simp [RF, List.flatMap_append]
+    · intro g hg f hf
+      rw [← hgs, hd] at hg
+      have hg' : ∃ g' ∈ nd ++ [s.cur], g'.ftoks = g.ftoks := by
+        rcases List.mem_append.1 hg with hg | hg
+        · exact ⟨g, List.mem_append_left _ hg, rfl⟩
+        · simp only [List.mem_singleton] at hg; subst hg
+          exact ⟨s.cur, List.mem_append_right _ (List.mem_singleton_self _), rfl⟩
+      obtain ⟨g', hg'm, hg'f⟩ := hg'
+      have hm := hres g' hg'm
+      rw [hg'f, a, b, c] at hm
+      have : resFace pc (poolV ls) (poolN ls) (poolT ls) f ∈ (RF pc s g').map some := by
+        rw [← hm]; exact List.mem_map_of_mem hf
+      obtain ⟨r, _, hr'⟩ := List.mem_map.1 this
+      rw [← hr']; rfl
+
+end final
+
 end ObjL
 end PolyVerif
